@@ -705,7 +705,14 @@ fn execute_inner<T: Sem>(
                     fail!("R2.panic", &x, "record {} ({}), stream ends at {}: {}", i, vals[i].show(), t, d);
                 };
                 if t >= offsets[i + 1] {
-                    // fault lies after this record: must read normally
+                    // fault lies after this record: must read normally (a value that is not a valid
+                    // element must be rejected under Validate::Yes, as in the benign class)
+                    if !vals[i].ref_valid(plan.validate) {
+                        if let Ok(v2) = r {
+                            fail!("R1.invalid_accepted", "", "Validate::Yes accepted {} which is not a valid element", v2.show());
+                        }
+                        break;
+                    }
                     match r {
                         Ok(v2) => {
                             if !v2.same(&vals[i]) {
